@@ -20,7 +20,7 @@ func init() {
 			ruleX6(c)
 			ruleM6(c) // the table mux.Close walks holds every open connection: a stale handle cannot unregister a live one
 		},
-		explanation: "Decides the fail-stop structure of the multiplexer: every exit of the reader loop other than the one taken on the done channel is preceded on every path by latching the error and closing the mux (including the queue-overflow branch), and a partially written frame does the same in write; every close() of a channel stored in a struct field of the net and multiplex packages runs inside a sync.Once body or under a lock behind a test-and-set flag; every blocking receive of those packages has a channel that some close path closes (a connection's Read selects on its done channel, which conn.close closes, which mux.Close calls for every registered connection; Accept's channel is closed by Close); Write tests the done channel before writing, the first error is latched once and error() never yields nil; closing the mux is never reachable with its own once or the connection lock already held. The listener's closed flag is read under the same exclusive lock the close is made under; conn.Close unregisters only itself, so mux.Close reaches every open connection.",
+		explanation: "Decides the fail-stop structure of the multiplexer: every exit of the reader loop other than the one taken on the done channel is preceded on every path by latching the error and closing the mux (including the queue-overflow branch), and a partially written frame does the same in write; every close() of a channel stored in a struct field of the net and multiplex packages runs inside a sync.Once body or under a lock behind a test-and-set flag; every blocking receive of those packages has a channel that some close path closes (a connection's Read selects on its done channel, which conn.close closes, which mux.Close calls for every registered connection; Accept's channel is closed by Close); Write tests the done channel before writing, the first error is latched once and error() never yields nil; closing the mux is never reachable with its own once or the connection lock already held. The listener's closed flag is read under the same exclusive lock the close is made under; conn.Close unregisters only itself, so mux.Close reaches every open connection. A channel that another function sends on is never closed; no multiplexer lock is acquired while it is already held.",
 		notDecided: []string{
 			"promptness as time",
 			"that a truncated frame makes io.ReadFull fail (standard library)",
@@ -238,22 +238,53 @@ func ruleX2(c *Ctx) {
 	n := 0
 	for _, pkg := range []string{pkgMux, pkgNet} {
 		for _, f := range m.funcsInPkg(pkg) {
-			for _, ci := range calls(f) {
-				call, ok := ci.(*ssa.Call)
-				if !ok {
+			for _, call := range calls(f) {
+				if _, isGo := call.(*ssa.Go); isGo {
 					continue
 				}
-				bi, ok := call.Call.Value.(*ssa.Builtin)
+				bi, ok := call.Common().Value.(*ssa.Builtin)
 				if !ok || bi.Name() != "close" {
 					continue
 				}
-				a := m.ap(call.Call.Args[0])
+				a := m.ap(call.Common().Args[0])
 				if len(a.Path) == 0 {
 					continue // local channel
 				}
 				n++
 				key := funcKey(f) + "/" + a.Path[len(a.Path)-1]
 				what := fmt.Sprintf("close of channel %s in %s happens at most once", a.PathString(), funcKey(f))
+				// a channel that another function sends on is never closed: the sender cannot know, and a send on a
+				// closed channel panics
+				if k := chanField(call.Common().Args[0]); k != "" {
+					sender := ""
+					for _, pkg2 := range []string{pkgMux, pkgNet} {
+						for _, g := range m.funcsInPkg(pkg2) {
+							if g == f {
+								continue
+							}
+							for _, bb := range g.Blocks {
+								for _, in := range bb.Instrs {
+									switch x := in.(type) {
+									case *ssa.Send:
+										if chanField(x.Chan) == k && !ownerIsFresh(x.Chan) {
+											sender = funcKey(g)
+										}
+									case *ssa.Select:
+										for _, st := range x.States {
+											if st.Dir == types.SendOnly && chanField(st.Chan) == k {
+												sender = funcKey(g)
+											}
+										}
+									}
+								}
+							}
+						}
+					}
+					if sender != "" {
+						c.violate("X2", key+"/has-sender", call.Pos(), "a channel that "+sender+" sends on is not closed by "+funcKey(f),
+							"the channel is closed here while "+sender+" sends on it without holding a lock across lookup and send: a close that falls between the two makes the send panic (send on closed channel)")
+					}
+				}
 				held := la.heldAt(call)
 				once := false
 				for l := range held {
@@ -557,6 +588,11 @@ func ruleX5(c *Ctx) {
 		if e.From == "mux.connLock" && (e.To == "once:mux.closeOnce" || e.To == "mux.connLock") {
 			bad = fmt.Sprintf("%s is reached in %s (at %s) with the connection lock held: Close deadlocks on its own lock", e.To, funcKey(e.Fn), c.pos(e.At.Pos()))
 		}
+		// no lock of the multiplexer is taken again while it is held (sync.Mutex is not reentrant): in particular the
+		// write path closes the mux from its error branch with the write lock held, so Close may not need that lock
+		if e.From == e.To && (e.From == "mux.writeLock" || e.From == "mux.connLock") {
+			bad = fmt.Sprintf("%s is acquired in %s (at %s) while it is already held: the goroutine deadlocks on its own lock (a write that fails mid-frame closes the mux with the write lock held)", e.To, funcKey(e.Fn), c.pos(e.At.Pos()))
+		}
 		if e.From == "once:mux.closeOnce" && e.To == "once:mux.closeOnce" {
 			bad = fmt.Sprintf("mux.Close is re-entered from its own once body in %s: sync.Once.Do deadlocks", funcKey(e.Fn))
 		}
@@ -642,4 +678,19 @@ func ruleX6(c *Ctx) {
 		}
 	}
 	c.ok("X6", "Close", cl.Pos(), okC, "closing the listener closes the wrapped connection", "the wrapped connection is not closed")
+}
+
+// ownerIsFresh: the channel is a field of an object created in this very function (a constructor filling
+// its queue before the object is shared).
+func ownerIsFresh(ch ssa.Value) bool {
+	u, ok := ch.(*ssa.UnOp)
+	if !ok {
+		return false
+	}
+	fa, ok := u.X.(*ssa.FieldAddr)
+	if !ok {
+		return false
+	}
+	_, fresh := fa.X.(*ssa.Alloc)
+	return fresh
 }
